@@ -193,9 +193,19 @@ sys.exit(1 if r["violations"] else 0)
         for n, why in undecided:
             print(f"UNDECIDED property={prop} obligation={n} reason={why}")
         rc = 2
+    n_cases = sum(b.get("cases", 0) for b in bounded if not b.get("error"))
+    n_in = sum(b.get("in_contract", 0) for b in bounded if not b.get("error"))
+    bsamples = [{"bounded_target": b["target"], "cases": b["cases"], "violations": len(b["violations"])} for b in bounded if not b.get("error")][:4]
     ev = {
-        "property_id": prop, "tier": tier, "seed": seed, "level": "proof",
+        "property_id": prop, "tier": tier, "seed": seed, "level": "proof" if n_ob > 0 else "exploration",
         "coverage": {
+            "evaluations": n_cases + n_ob,
+            "distinct_nontrivial": n_in + n_dis,
+            "rule": "deductive part: one evaluation per proof obligation generated from /repo's source (non-trivial = discharged by a "
+                    "solver or the simplifier); bounded part (labelled, never counted as proved): the executable contract of each "
+                    "listed function is run natively on the concrete cases its sidecar generator enumerates (small-scope types, "
+                    "parameters, identifiers; real API models of the fixture packages); a case is non-trivial when it satisfies the "
+                    "contract's precondition; cases are distinct by construction of the enumerators",
             "obligations": n_ob, "discharged": n_dis,
             "checker_cmd": f"/verif/check {prop} --tier {tier}",
             "trusted_base": TRUSTED_BASE,
@@ -209,7 +219,7 @@ sys.exit(1 if r["violations"] else 0)
             "quick_tier_restrictions": [c.target for c in reg.order if getattr(c, "quick_restricted", False) and prop in (c.props or [])],
             "undecided": [{"what": n, "why": w} for n, w in undecided],
             "source_sha256": sha,
-            "samples": samples or [{"note": "no solver-discharged obligation to show"}],
+            "samples": (samples + bsamples) or [{"note": "nothing to show"}],
             "clauses": {k: ("discharged" if v else "NOT discharged") for k, v in sorted(clause_status.items())},
         },
         "assumptions": sorted(assumptions),
